@@ -27,6 +27,8 @@ def run(ctx):
     check_alias(ctx, prog)
     check_clone(ctx, prog, tags)
     check_inline(ctx, prog)
+    check_accessors(ctx, prog)
+    check_strshare(ctx, prog)
     return __doc__.split('\n\n', 1)[1]
 
 
@@ -298,3 +300,152 @@ def conjuncts(c):
     if c.get('k') == 'bin' and c.get('op') == '&&':
         return conjuncts(c['x']) + conjuncts(c['y'])
     return [c]
+
+
+# ------------------------------------------------------------------ numeric accessors / string buffer sharing
+
+def _range(t):
+    b = t.get('bits')
+    if not b:
+        return None
+    return (-(1 << (b - 1)), (1 << (b - 1)) - 1) if t.get('sg', True) else (0, (1 << b) - 1)
+
+
+def number_chains(prog, f, number_tag, dval, depth=0):
+    """For a Var conversion operator: the integral types a stored double (`_d` = dval, tag NUMBER) passes through on its way to
+    the result, on every return path whose guards admit that tag and value.  -> list of chains (innermost first)"""
+    G = q.Guarded(f)
+    chains = []
+    for s_ in ir.walk_stmts(f['body']):
+        if s_.get('k') != 'return' or s_.get('e') is None:
+            continue
+
+        def bind(e):
+            if e.get('k') == 'mem' and e.get('f') == '_type':
+                return number_tag
+            if e.get('k') == 'mem' and e.get('f') == '_d':
+                return dval
+            return None
+        ev = bounded.Bound(prog, f, {}, {}, bind=bind)
+        if not bounded.admitted(ev, G.stmt_guards.get(id(s_), ()), G):
+            continue
+        # conditional operator arms: follow the arm the value selects
+        def descend(e, chain):
+            while isinstance(e, dict):
+                k = e.get('k')
+                if k in ('cast', 'temp', 'paren'):
+                    if k == 'cast':
+                        t = T(f, e.get('t'))
+                        if t.get('int') and not t.get('bool') and e.get('ck') in ('FloatingToIntegral', 'IntegralCast'):
+                            chain = chain + [t]
+                    e = e['e']
+                    continue
+                if k == 'construct' and len(e.get('a', [])) == 1:
+                    e = e['a'][0]
+                    continue
+                if k == 'cond':
+                    r = ev.ev3(e['c'])
+                    if r is not False:
+                        descend(e['x'], list(chain))
+                    if r is not True:
+                        descend(e['y'], list(chain))
+                    return
+                if k == 'mem' and e.get('f') == '_d':
+                    chains.append(list(reversed(chain)))
+                    return
+                if k == 'call' and (e.get('pq') or '').startswith('asl::Var::operator ') and depth < 3:
+                    cands = [g_ for g_ in prog.fn(e.get('fn'), e.get('sig')) if g_.get('body')]
+                    if cands:
+                        rt = T(cands[0], cands[0].get('ret'))
+                        for sc in number_chains(prog, cands[0], number_tag, dval, depth + 1):
+                            chains.append(sc + ([rt] if rt.get('int') else []) + list(reversed(chain)))
+                    return
+                return
+        descend(s_['e'], [])
+    return chains
+
+
+def check_accessors(ctx, prog):
+    """C04.accessor: a number stored as a double (tag NUMBER: every value a 32-bit int cannot hold, e.g. unsigned >= 2^31, Long,
+    ULong) is read back by `operator T()` without passing through an integer type that cannot hold it.  For each value of a
+    grid of doubles inside T's range, the return paths admitted for (NUMBER, value) are followed through casts and nested
+    Var conversion operators; every intermediate integral type must contain the value."""
+    number_tag = q.enum_value(prog, 'asl::Var::Type', 'NUMBER')
+    n = 0
+    grid = [0.0, 1.0, 2147483647.0, 2147483648.0, 3000000000.0, 4294967295.0, 4294967296.0, 1e15, 9223372036854774784.0, 9223372036854775808.0, 1.5e19, -1.0, -2147483648.0, -2147483649.0, -1e15]
+    for f in prog.functions:
+        if f.get('clsp') != 'asl::Var' or not (f.get('n') or '').startswith('operator ') or not f.get('body') or f.get('params'):
+            continue
+        rt = T(f, f.get('ret'))
+        if not rt.get('int') or rt.get('bool') or (rt.get('bits') or 0) < 32:
+            continue
+        n += 1
+        ctx.analysed(f)
+        role = '%s:stored doubles reach the result through wide enough types' % f['n']
+        want = _range(rt)
+        bad = None
+        seen_any = False
+        for d in grid:
+            if not want[0] <= d <= want[1]:
+                continue
+            chains = number_chains(prog, f, number_tag, d)
+            ctx.evaluations += 1
+            if chains:
+                seen_any = True
+            for ch in chains:
+                for t in ch:
+                    r = _range(t)
+                    if r is not None and not r[0] <= d <= r[1] and bad is None:
+                        bad = (t, d)
+        if not seen_any:
+            ctx.undecided('C04.accessor', f['pq'], role, fwhere(f), 'no return path from the stored double recognised for tag NUMBER')
+            continue
+        ctx.check(bad is None, 'C04.accessor', f['pq'], role, fwhere(f), 'every grid value inside the range of %s stays representable along its conversion chain' % rt.get('s'),
+                  '%s converts the stored double %.17g through `%s`, which cannot hold it: a Var built from that %s value (stored as NUMBER) does not report it back'
+                  % (f['q'], bad[1] if bad else 0, bad[0].get('s') if bad else '', rt.get('s')))
+    ctx.floor('C04.accessor integral conversion operators', n, 4)
+
+
+def _owner(m):
+    """the object a (possibly anonymous-union) member access belongs to: 'this' or the base expression"""
+    b = m.get('b')
+    while isinstance(b, dict):
+        b = strip_lv(b)
+        if b.get('k') == 'mem' and not b.get('f'):
+            b = b.get('b')
+            continue
+        return b
+    return {'k': 'this'}
+
+
+def check_strshare(ctx, prog):
+    """C04.strshare: Var's heap string buffer (`_s`, an Array<char>) is rewritten in place by the string assignment operators;
+    therefore no Var member may create it as a handle copy of another Var's buffer (handle copies share storage)."""
+    sharing = []
+    mutators = []
+    for f in prog.functions:
+        if f.get('clsp') != 'asl::Var' or not f.get('body'):
+            continue
+        for e in fn_exprs(f):
+            if e.get('k') == 'construct' and e.get('copy') and 'asl::Array<char>' in (e.get('cls') or '') and e.get('a'):
+                src = e['a'][0]
+                if any(w.get('k') == 'mem' and w.get('f') == '_s' and _owner(w).get('k') != 'this' for w in walk_expr(src)):
+                    sharing.append((f, e))
+        dups = [e for e in fn_exprs(f) if e.get('k') == 'call' and (e.get('pq') or '').endswith('::dup') and any(w.get('k') == 'mem' and w.get('f') == '_s' for w in walk_expr(e.get('obj') or {}))]
+        for e in fn_exprs(f):
+            if e.get('k') == 'call' and e.get('fn') in ('memcpy', 'strcpy', 'memmove') and e.get('a'):
+                d = e['a'][0]
+                if any(w.get('k') == 'mem' and w.get('f') == '_s' and _owner(w).get('k') == 'this' for w in walk_expr(d)) and not dups and f.get('kind') not in ('ctor',) and f.get('n') != 'copy':
+                    mutators.append((f, e))
+    ctx.evaluations += len(mutators) + len(sharing)
+    if not mutators:
+        ctx.undecided('C04.strshare', 'asl::Var', 'string buffer is not shared between Vars', '', 'no in-place writer of the string buffer found (anchor lost?)')
+        return
+    if sharing:
+        f, e = sharing[0]
+        m = mutators[0][0]
+        ctx.violation('C04.strshare', f['pq'], 'string buffer is not shared between Vars', fwhere(f, e.get('l')),
+                      '%s creates the string buffer as a handle copy of another Var\'s buffer (`%s`): the copies share storage, and %s (and %d more writer(s)) rewrites it in place without detaching, so changing one Var changes or frees the text of its copies'
+                      % (f['q'], pe(e), m['q'] + m['sig'], len(mutators) - 1))
+    else:
+        ctx.ok('C04.strshare', 'asl::Var', 'string buffer is not shared between Vars', fwhere(mutators[0][0]), 'no Var member copy-constructs the buffer from another Var; %d in-place writers' % len(mutators))
